@@ -679,6 +679,32 @@ func forEachKeyGridCell(sh, nsh int, f func(cell string, wire []byte)) int {
 			}
 		}
 	}
+	// OKP keys with the coordinate sizes of the 448-bit curves (56 / 57 octets) and their doubles, on every OKP
+	// curve label, with x only, d only, or both
+	for _, ci := range []int64{4, 5, 6, 7} {
+		for _, size := range []int{56, 57, 112, 114} {
+			for shape := 0; shape < 3; shape++ {
+				for _, alg := range []int64{0, -8} {
+					cnt++
+					if cnt%nsh != sh {
+						continue
+					}
+					coord := bytes.Repeat([]byte{0x5a}, size)
+					m := rc.Map(rc.E(rc.Int(1), rc.Int(1)), rc.E(rc.Int(-1), rc.Int(ci)))
+					if shape != 1 {
+						m.M = append(m.M, rc.E(rc.Int(-2), rc.Bytes(coord)))
+					}
+					if shape != 0 {
+						m.M = append(m.M, rc.E(rc.Int(-4), rc.Bytes(coord)))
+					}
+					if alg != 0 {
+						m.M = append(m.M, rc.E(rc.Int(3), rc.Int(alg)))
+					}
+					f(fmt.Sprintf("okp-448-sizes kty=1 crv=%d size=%d shape=%d alg=%d", ci, size, shape, alg), rc.Encode(m, nil))
+				}
+			}
+		}
+	}
 	return cnt
 }
 
